@@ -1,6 +1,7 @@
 package chainsim
 
 import (
+	"bytes"
 	"crypto/sha256"
 	"fmt"
 	"github.com/pokt-network/pocket-core/codec"
@@ -9,6 +10,7 @@ import (
 	"sort"
 	"strings"
 	"time"
+	"verif/sim/simdb"
 
 	"verif/sim/core"
 
@@ -328,18 +330,111 @@ func (s *Sim) execBlock(st *Step) {
 	spec := d.MakeBlock(t, proposer, votes, evidence, txs)
 
 	bo := s.newBlockObs(spec, pend, st)
-	res := ExecBlock(s.node, spec, bo.phases())
+	ph := bo.phases()
+	var appPre, idxPre *simdb.DB
+	if st.CrashAt != 0 {
+		// record the database writes of Commit so that a crash image can be rebuilt afterwards
+		inner := ph.BeforeCommit
+		ph.BeforeCommit = func() bool {
+			if inner != nil && !inner() {
+				return false
+			}
+			disks := s.node.Disks
+			appPre, idxPre = disks.App.Snapshot(), disks.Index.Snapshot()
+			disks.App.TakeLog()
+			disks.App.Logging = true
+			return true
+		}
+	}
+	res := ExecBlock(s.node, spec, ph)
 	if res == nil {
 		return
 	}
 	d.Advance(spec, res)
 	s.results[h] = res
+	if appPre != nil {
+		defer s.crashDuringCommit(spec, res, appPre, idxPre, st.CrashAt)
+	}
 	if os.Getenv("SIM_TRACE") != "" {
 		for i, tx := range txs {
 			s.res.Tracef("   h=%d tx%d sha=%x own=%v code=%d log=%.80s", h, i, sha256.Sum256(tx), pend[i].id == 0, res.Txs[i].Code, res.Txs[i].Log)
 		}
 	}
 	bo.finish(res)
+}
+
+// crashDuringCommit (C07 at application level): the block was executed and committed normally, so
+// its outcome is known. The process is then taken to have died after k of the n database writes
+// of that Commit: the application database is rebuilt as (state before Commit + first k write
+// units), the transaction index is as before the block, the block store has the block (Tendermint
+// saves it before executing), and the node is restarted over those disks. What Tendermint's
+// handshake does next is the driver's job: an application that reports the previous height gets
+// the block again. The run continues on the recovered node.
+func (s *Sim) crashDuringCommit(spec *BlockSpec, done *BlockResult, appPre, idxPre *simdb.DB, crashAt int) {
+	h := spec.Height
+	disks := s.node.Disks
+	disks.App.Logging = false
+	units := disks.App.TakeLog()
+	k := (crashAt - 1) % (len(units) + 1)
+	if k < 0 {
+		k = -k
+	}
+	image := appPre
+	for _, u := range units[:k] {
+		image.ApplyUnit(u)
+	}
+	s.res.Fault("crash_during_commit")
+	s.res.Case(fmt.Sprintf("crash/writes=%d/of=%d", k, len(units)))
+	want := s.committed // dump of the uninterrupted commit of h
+	prev := s.book[h-1]
+	crashed := &Disks{App: image, Index: idxPre, Blocks: disks.Blocks, Evidence: disks.Evidence}
+	s.node = s.node.Restart(crashed)
+	got := s.node.App.LastBlockHeight()
+	subject := fmt.Sprintf("after-%d-of-%d-writes", k, len(units))
+	if k == 0 {
+		subject = "before-first-write"
+	} else if k == len(units) {
+		subject = "after-last-write"
+	} else {
+		subject = "mid-commit"
+	}
+	switch got {
+	case h:
+		after := TakeDump(s.node, h)
+		if want != nil {
+			if ch := Diff(want, after); len(ch) > 0 {
+				s.violate("C07", "recovered-state", subject, fmt.Sprintf("crash after %d of %d writes of the commit of block %d: the reopened node reports height %d but its state differs from the committed one: %s (+%d more)", k, len(units), h, h, ch[0], len(ch)-1))
+			}
+		}
+		if !bytes.Equal(s.node.App.LastCommitID().Hash, done.AppHash) {
+			s.violate("C07", "recovered-app-hash", subject, fmt.Sprintf("crash after %d of %d writes of the commit of block %d: reopened app hash %x, committed %x", k, len(units), h, s.node.App.LastCommitID().Hash, done.AppHash))
+		}
+		// the handshake re-indexes the block from the stored responses
+		IndexBlock(s.node, spec, done)
+		s.res.Probe("crash_recovered_at_new_height")
+	case h - 1:
+		if prev != nil {
+			if ch := Diff(prev, TakeDump(s.node, h-1)); len(ch) > 0 {
+				s.violate("C07", "recovered-state", subject, fmt.Sprintf("crash after %d of %d writes of the commit of block %d: the reopened node reports height %d but its state differs from what block %d committed: %s (+%d more)", k, len(units), h, h-1, h-1, ch[0], len(ch)-1))
+			}
+		}
+		again := ExecBlock(s.node, spec, nil)
+		if again == nil || again.Digest() != done.Digest() {
+			d := "<nil>"
+			if again != nil {
+				d = again.Digest()
+			}
+			s.violate("C07", "re-execution-diverged", subject, fmt.Sprintf("crash after %d of %d writes of the commit of block %d: re-executing the block on the reopened node gives %s, the uninterrupted run %s", k, len(units), h, clip(d), clip(done.Digest())))
+		} else if want != nil {
+			if ch := Diff(want, TakeDump(s.node, h)); len(ch) > 0 {
+				s.violate("C07", "re-execution-diverged", subject, fmt.Sprintf("crash after %d of %d writes of the commit of block %d: same results but the state after re-execution differs: %s (+%d more)", k, len(units), h, ch[0], len(ch)-1))
+			}
+		}
+		s.res.Probe("crash_recovered_at_previous_height")
+	default:
+		s.violate("C07", "recovered-height", subject, fmt.Sprintf("crash after %d of %d writes of the commit of block %d: the reopened node reports height %d", k, len(units), h, got))
+	}
+	s.checkUpgradeGlobals("after-restart")
 }
 
 func (s *Sim) restart() {
